@@ -333,6 +333,99 @@ pub fn summary_tok(si: &msi::SummaryInfo) -> String {
     )
 }
 
+
+/// the contents of a stream, read in several ways that must agree: to the end at once; in small
+/// pieces; a few bytes and then the rest; from a position sought to (from the start, from the
+/// end, relative).  `Err(reply)` for an error of the first read or a disagreement (`STREAMAPI:`).
+pub fn read_stream_checked<F: Read + Seek>(pkg: &mut msi::Package<F>, name: &str) -> Result<Vec<u8>, String> {
+    let mut data = vec![];
+    match pkg.read_stream(name) {
+        Ok(mut r) => {
+            if let Err(e) = r.read_to_end(&mut data) {
+                return Err(format!("err {}", kind_name(&e)));
+            }
+        }
+        Err(e) => return Err(format!("err {}", kind_name(&e))),
+    }
+    let bad = |what: &str| Err(format!("STREAMAPI:{}", what.replace(' ', "_")));
+    let len = data.len();
+    // in pieces of seven bytes
+    {
+        let mut r = match pkg.read_stream(name) {
+            Ok(r) => r,
+            Err(_) => return bad("second read_stream failed"),
+        };
+        let mut got = vec![];
+        let mut buf = [0u8; 7];
+        loop {
+            match r.read(&mut buf) {
+                Ok(0) => break,
+                Ok(k) => got.extend_from_slice(&buf[..k]),
+                Err(_) => return bad("read in pieces failed"),
+            }
+            if got.len() > len + 64 {
+                break;
+            }
+        }
+        if got != data {
+            return bad("read in pieces differs from read_to_end");
+        }
+        // at the end: nothing more, also through read_to_end
+        let mut more = vec![];
+        match r.read_to_end(&mut more) {
+            Ok(0) if more.is_empty() => {}
+            _ => return bad("read_to_end at the end of the stream returned something"),
+        }
+    }
+    // a few bytes, then the rest
+    for k in [1usize, 5, len / 2] {
+        if k == 0 || k > len {
+            continue;
+        }
+        let mut r = match pkg.read_stream(name) {
+            Ok(r) => r,
+            Err(_) => return bad("read_stream failed again"),
+        };
+        let mut head = vec![0u8; k];
+        if r.read_exact(&mut head).is_err() || head[..] != data[..k] {
+            return bad("read_exact of the first bytes differs");
+        }
+        let mut rest = vec![0xEEu8; 3];
+        match r.read_to_end(&mut rest) {
+            Ok(n) if n == len - k && rest[..3] == [0xEE; 3] && rest[3..] == data[k..] => {}
+            _ => return bad("read_to_end after a partial read differs from the rest of the stream"),
+        }
+    }
+    // positions sought to
+    {
+        let mut r = match pkg.read_stream(name) {
+            Ok(r) => r,
+            Err(_) => return bad("read_stream failed again"),
+        };
+        for (pos, want) in [
+            (SeekFrom::Start((len / 3) as u64), len / 3),
+            (SeekFrom::End(-((len / 4) as i64)), len - len / 4),
+            (SeekFrom::Start(0), 0),
+            (SeekFrom::End(0), len),
+        ] {
+            match r.seek(pos) {
+                Ok(p) if p as usize == want => {}
+                _ => return bad("seek returned another position"),
+            }
+            let mut rest = vec![];
+            match r.read_to_end(&mut rest) {
+                Ok(n) if n == len - want && rest[..] == data[want..] => {}
+                _ => return bad("read_to_end after a seek differs from the rest of the stream"),
+            }
+            match r.seek(SeekFrom::Current(0)) {
+                Ok(p) if p as usize == len => {}
+                _ => return bad("position after read_to_end is not the end"),
+            }
+        }
+    }
+    Ok(data)
+}
+
 pub fn snapshot(pkg: &mut Pkg) -> String {
     let names: Vec<String> = pkg.tables().map(|t| t.name().to_string()).collect();
     let mut tabs: Vec<String> = vec![];
@@ -355,15 +448,10 @@ pub fn snapshot(pkg: &mut Pkg) -> String {
     let stream_names: Vec<String> = pkg.streams().collect();
     let mut strs: Vec<String> = vec![];
     for n in stream_names {
-        let item = match pkg.read_stream(&n) {
-            Ok(mut r) => {
-                let mut data = vec![];
-                match r.read_to_end(&mut data) {
-                    Ok(_) => format!("{}={}", hex_of_str(&n), hex_of_bytes(&data)),
-                    Err(e) => format!("{}=ERR:{}", hex_of_str(&n), kind_name(&e)),
-                }
-            }
-            Err(e) => format!("{}=ERR:{}", hex_of_str(&n), kind_name(&e)),
+        let item = match read_stream_checked(pkg, &n) {
+            Ok(data) => format!("{}={}", hex_of_str(&n), hex_of_bytes(&data)),
+            Err(e) if e.starts_with("STREAMAPI:") => format!("{}={}", hex_of_str(&n), e),
+            Err(e) => format!("{}=ERR:{}", hex_of_str(&n), &e[4..]),
         };
         strs.push(item);
     }
